@@ -116,21 +116,26 @@ func ReadMultiTrees(reader *bufio.Reader, format int) <-chan tree.Trees {
 			for e == nil {
 				tree.VerifYield()
 				parser := newick.NewParser(strings.NewReader(line))
-				if compTree, err = parser.Parse(); err != nil {
-					compTrees <- tree.Trees{
-						Tree: nil,
-						Id:   id,
-						Err:  err,
+				// several trees may stand on one line: parse until the text is exhausted
+				for more := true; more; more = parser.More() {
+					if compTree, err = parser.Parse(); err != nil {
+						compTrees <- tree.Trees{
+							Tree: nil,
+							Id:   id,
+							Err:  err,
+						}
+						break
 					}
-					break
-				} else {
 					compTrees <- tree.Trees{
 						Tree: compTree,
 						Id:   id,
 						Err:  nil,
 					}
+					id++
 				}
-				id++
+				if err != nil {
+					break
+				}
 				line, e = fileutils.ReadUntilSemiColon(reader)
 			}
 			// Text left after the last ';': the last tree is not terminated
